@@ -71,18 +71,27 @@ fn gen(rng: &mut Rng, case: u64) -> Case {
     let mut last = sp;
     let target = 2 + rng.usize(63);
     let mut t = rng.range_i64(-1_000_000_000_000_000, 1_000_000_000_000_000);
-    let const_dt = if case % 3 == 0 { Some(rng.step_ns(1_000, 36_000_000_000_000)) } else { None };
+    // intervals: log-uniform 1 us .. 100 h, plus the exact ends and round values (guards written with <= / >= or
+    // with a power-of-two threshold in seconds only show there)
+    fn interval(rng: &mut Rng) -> i64 {
+        match rng.below(20) {
+            0 => 1_000,
+            1 => *rng.pick(&[1_001i64, 999_999, 1_000_000, 1_000_000_000, 3_600_000_000_000, 36_000_000_000_000, 65_536_000_000_000, 65_537_000_000_000, 86_400_000_000_000, 360_000_000_000_000]),
+            _ => rng.step_ns(1_000, 360_000_000_000_000),
+        }
+    }
+    let const_dt = if case % 3 == 0 { Some(interval(rng)) } else { None };
     while h.len() < target {
         let run = match rng.below(5) { 0 => 1, 1 => 2, 2 => 3, 3 => 4 + rng.usize(6), _ => 10 + rng.usize(30) };
         for _ in 0..run {
-            t += const_dt.unwrap_or_else(|| rng.step_ns(1_000, 36_000_000_000_000));
+            t += const_dt.unwrap_or_else(|| interval(rng));
             // strata: fresh value, the previous value again (error unchanged, D = 0), exactly the setpoint (e = 0)
             let v = match rng.below(12) { 0 => last, 1 => sp, _ => rng.moderate(1e4) };
             last = v;
             h.push(Ev::Some(t, v));
         }
         for _ in 0..1 + rng.usize(2) {
-            t += rng.step_ns(1_000, 36_000_000_000_000);
+            t += interval(rng);
             h.push(match rng.below(4) { 0 => Ev::None, k => Ev::Err(k as u8 - 1) }); // Err(0) = Error::FromNone, Err(1|2) = Error::Other
         }
     }
